@@ -82,8 +82,8 @@ class RecFrame:
                 return
         val = new
         if isinstance(val, VRef) and val.root not in getattr(self, "before", ()):
-            # objects created inside the iteration are recorded by value
-            val = ex.resolve(st, val)
+            # objects created inside the iteration are recorded by value (including nested containers)
+            val = ex.deep_inline(st, ex.resolve(st, val))
         self.effects.append(Effect("set", ref.root, ref.path, val, g))
 
 
@@ -843,7 +843,8 @@ class Interp(Exec):
 
     def log_read(self, st, ref, idx):
         if st.rec:
-            st.rec[-1].reads.append((ref, idx, t_and(*st.pc[st.rec[-1].pc_len:])))
+            # the guard is materialised lazily (only reads of containers the loop writes are ever inspected)
+            st.rec[-1].reads.append((ref, idx, tuple(st.pc[st.rec[-1].pc_len:])))
 
     def objdict_get(self, st, recv, idx, node):
         h = self.resolve(st, recv)
